@@ -154,7 +154,8 @@ Inductive rval :=
 | RSnap (l : list snaprow)
 | RMsgFlags (l : list (N * N * list flag))
 | RCountUid (c u : N)
-| ROptNum (o : option N).
+| ROptNum (o : option N)
+| RUidFlags (u : N) (l : list flag).   (* CreateMessageAndAddToMailbox: the UID and the flag set of the new entry *)
 
 Inductive ecls := ENotFound | EOther.
 Inductive result := Ok (d : db) (r : rval) | Fail (e : ecls).
@@ -634,7 +635,9 @@ Definition op_update_remote_mailbox_id (b remote : N) (d : db) : result :=
   end.
 
 (* CreateMessageAndAddToMailbox: INSERT message; INSERT its flags except \Deleted; INSERT message_to_mailbox;
-   INSERT mailbox row (deleted = the request named \Deleted) RETURNING uid *)
+   INSERT mailbox row (deleted = the request named \Deleted) RETURNING uid; returns the uid and the request's flags
+   (with \Deleted, which the new entry has in this mailbox) plus \Recent *)
+Definition recent_flag_name : flag := "\Recent"%string.
 Definition deleted_flag_name : flag := "\Deleted"%string.
 Definition is_deleted_flag (f : flag) : bool := flag_eqb_ci f deleted_flag_name.
 Definition op_create_message_and_add (b : N) (r : creq) (d : db) : result :=
@@ -649,7 +652,7 @@ Definition op_create_message_and_add (b : N) (r : creq) (d : db) : result :=
       | None => Fail EOther
       | Some t => match obind (tab_ins_rows b [(q_id r, q_remote r)] d2)
                               (fun d3 => if existsb is_deleted_flag (q_flags r) then tab_set_deleted b true [q_id r] d3 else Some d3) with
-                  | Some d4 => Ok d4 (RNum (t_seq t + 1))
+                  | Some d4 => Ok d4 (RUidFlags (t_seq t + 1) (q_flags r ++ [recent_flag_name]))
                   | None => Fail EOther
                   end
       end
